@@ -315,7 +315,9 @@ def load_corpus(prop):
 def evaluate(ctx: Ctx, cases, driver: Driver, stage_c=True, label=""):
     """runs impl + model on cases; appends failures; returns stats"""
     mod = ctx.mod
+    _t0 = time.time()
     impl_out = run_impl(mod.__name__, cases)
+    _t1 = time.time()
     lines, idx = [], []
     for ci, c in enumerate(cases):
         for li, l in enumerate(c.lines):
@@ -323,13 +325,15 @@ def evaluate(ctx: Ctx, cases, driver: Driver, stage_c=True, label=""):
                 continue          # a line the model does not cover: property-on-implementation (D) only
             lines.append(l); idx.append((ci, li))
     model_flat = driver.ask(lines) if stage_c else [None] * len(lines)
+    _t2 = time.time()
     model_out = [[None] * len(c.lines) for c in cases]
     for (ci, li), o in zip(idx, model_flat):
         model_out[ci][li] = o
     oracle = getattr(mod, "oracle", None)
     nontriv = getattr(mod, "nontrivial", None)
     seen = set()
-    st = dict(evaluations=0, distinct_nontrivial=0, c_compared=0, d_compared=0, kinds={}, impl_errors=0)
+    st = dict(evaluations=0, distinct_nontrivial=0, c_compared=0, d_compared=0, kinds={}, impl_errors=0,
+              seconds=dict(implementation=round(_t1 - _t0, 1), model=round(_t2 - _t1, 1)))
     for c, io, mo in zip(cases, impl_out, model_out):
         st["evaluations"] += 1
         st["kinds"][c.kind] = st["kinds"].get(c.kind, 0) + 1
